@@ -44,11 +44,11 @@ NAMES = ['a', 'b', 'c', 'd']
 def bounds(tier):
     if tier == 'quick':
         return {'cnf': '3 variables, <=3 clauses, clause = set of <=3 variables or a two-literal clause on one variable (11 clause shapes, 1464 CNF shapes)',
-                'polarities': 'symbolic (all)', 'tseitin': 'depth<=1 exhaustive (42) + 358 seeded formulas of depth 2'}
+                'polarities': 'symbolic (all)', 'tseitin': 'depth<=1 exhaustive (42) + 358 seeded formulas of depth 2 over a b c; the same with 160 formulas over atoms named x2 a x1 (like the variables the encoding introduces)'}
     return {'cnf': ['3 variables, <=3 clauses, clause = multiset of <=3 variables (20 clause shapes, 8421 CNF shapes)',
                     '3 variables, <=4 clauses over the 11 quick clause shapes (16105 CNF shapes)',
                     '4 variables, <=3 clauses, clause = multiset of <=2 variables'],
-            'polarities': 'symbolic (all)', 'tseitin': 'depth<=2 exhaustive (7140) + 600 seeded formulas of depth 3'}
+            'polarities': 'symbolic (all)', 'tseitin': 'depth<=2 exhaustive (7140) + 600 seeded formulas of depth 3 over a b c; 1500 formulas of depth <= 2 over atoms named x2 a x1'}
 
 
 def setup(tier, seed):
@@ -102,6 +102,9 @@ def units(tier, seed):
     if tier == 'thorough':
         for i in range(0, 600, 50):
             us.append(('tseitin3', tier, seed, i, i + 50))
+    nx = 160 if tier == 'quick' else 1500
+    for i in range(0, nx, 20):
+        us.append(('tseitinx', tier, seed, i, min(nx, i + 20)))
     random.Random(seed).shuffle(us)
     return us
 
@@ -266,9 +269,18 @@ def formulas(depth, atoms):
 
 
 _FORMS = {}
+XNAMES = 'x2 a x1'
 
 
-def get_forms(depth):
+def get_forms(depth, names='abc'):
+    if names != 'abc':
+        # the same family over atoms whose names look like the variables the encoding introduces (x1, x2, ...)
+        key = (depth, names)
+        if key not in _FORMS:
+            from kernel.term import Var
+            from kernel.type import BoolType
+            _FORMS[key] = formulas(depth, [Var(n, BoolType) for n in names.split()])
+        return _FORMS[key]
     if depth not in _FORMS:
         from kernel.term import Var
         from kernel.type import BoolType
@@ -367,6 +379,11 @@ def run_tseitin(u, out, twin):
     if kind == 'tseitin3':
         forms = get_forms(3)
         idx = range(lo, min(hi, len(forms)))
+    elif kind == 'tseitinx':
+        forms = get_forms(2, XNAMES)
+        small = list(range(42))
+        n = 160 if tier == 'quick' else 1500
+        idx = (small + random.Random('x%s' % seed).sample(range(42, len(forms)), n - 42))[lo:hi]
     else:
         forms = get_forms(2)
         if tier == 'quick':
@@ -392,6 +409,8 @@ def run_tseitin(u, out, twin):
             continue
         bad['formula'] = str(t)
         bad['depth'] = 3 if kind == 'tseitin3' else 2
+        if kind == 'tseitinx':
+            bad['names'] = XNAMES
         bad['index'] = i
         out['cex'].append(bad)
     out['samples'].append({'tseitin_formula': str(forms[idx[0]])} if len(idx) else {})
@@ -421,7 +440,7 @@ def replay(c):
         from vlib.holsmt import Oracle
         if ORACLE is None:
             ORACLE = Oracle()
-        t = get_forms(c['depth'])[c['index']]
+        t = get_forms(c['depth'], c.get('names', 'abc'))[c['index']]
         bad = check_tseitin(t)
         return (bad is not None and bad['kind'] == kind), str(bad)
     cnf = [[(n, bool(p)) for n, p in cl] for cl in c['cnf']]
